@@ -24,6 +24,7 @@ FIXED_ASSUMPTIONS = [
     "extraction rules R1-R13 (DESIGN 3.3) applied to rustc's own -Zunpretty=expanded output of /repo/src; rustc's pretty-printer is trusted; tracing/tracing-attributes/tracing-futures are replaced by marker stubs in the tracing-on expansion",
     "sequential semantics of std::sync::atomic, arc_swap::{ArcSwap,ArcSwapOption} (rcu = load, apply once, store), RwLock (never poisoned), Arc (clone = alias): the generated cell shims; memory orderings ignored",
     "user closures (f, condition, reducer, iterators) are deterministic, do not panic and do not call back into the operator; Clone on data values is faithful (clone_val)",
+    "profile T units (C18, C19): `interfere_raw` / `call_raw` (any number of atomic steps of the other threads: they preserve the invariant and satisfy `rely`) are assumed; that every thread's checked guarantee implies the others' rely (tickets = sum of the threads' shares) is the standard rely/guarantee meta-argument, not machine-checked; sequentially consistent interleaving at shared-access granularity, one member = one thread, passive sink",
     "peers are spec-conformant as the properties stipulate; upstreams (other than merge's late greeters) greet inside the subscribing call",
     "assume/guarantee soundness argument of DESIGN 2.7 (environment = most general conformant peer, verified against the handler contracts) is a meta-level step, not machine-checked",
     "partial correctness only (exec_allows_no_decreases_clause on handlers and environment); liveness is phrased as safety at quiescence",
@@ -161,6 +162,9 @@ def run_unit(args):
     name, cfg, rlimit, seed = args
     t0 = time.time()
     res = {"unit": f"{name}.{cfg}", "template": name, "cfg": cfg, "status": "ok", "errors": [], "functions": [], "verified": 0, "n_errors": 0, "smt_ms": 0}
+    decl = re.search(r"^//@properties[ \t]+(.+)$", open(os.path.join(VERIF, "contracts", name + ".rs")).read(), re.M)
+    if decl:
+        res["tags"] = sorted(set(decl.group(1).split()))
     try:
         woven, meta = weave_mod.weave(name, cfg)
     except weave_mod.StructuralViolation as e:
@@ -223,7 +227,9 @@ def run_unit(args):
     if rep is None or (rep["verification-results"].get("encountered-vir-error")):
         res["status"] = "undecided"
         res["why"] = "verus did not produce a verification result (type error in the woven file?)\n" + stderr[-3000:]
-    elif any(e["kind"] == "undecided" for e in res["errors"]):
+    elif any(e["kind"] == "undecided" for e in res["errors"]) and not (
+            all(e.get("why") == "resource limit" for e in res["errors"] if e["kind"] == "undecided") and any(e["kind"] == "failed" for e in res["errors"])):
+        # (a function that ran out of resources next to obligations the solver refuted: the refuted ones stand)
         res["status"] = "undecided"
         res["why"] = "; ".join(e["text"] for e in res["errors"] if e["kind"] == "undecided")[:2000]
     elif res["n_errors"] or res["errors"]:
@@ -393,7 +399,7 @@ def pipeline(tier):
     canaries = []
     if tier == "thorough":
         with cf.ThreadPoolExecutor(14) as ex:
-            canaries = list(ex.map(canary_unit, [(n, "off") for n in templates(tier) if not re.search(r"^//@(pure|interfere)", open(os.path.join(VERIF, "contracts", n + ".rs")).read(), re.M)]))
+            canaries = list(ex.map(canary_unit, [(n, "off") for n in templates(tier) if not re.search(r"^//@pure", open(os.path.join(VERIF, "contracts", n + ".rs")).read(), re.M)]))
     return {"tier": tier, "units": results, "canaries": canaries, "t_expand_s": round(t_expand, 2), "wall_s": round(time.time() - t0, 2)}
 
 
@@ -441,7 +447,8 @@ def build_replay():
         os.makedirs(os.path.join(d, "src"), exist_ok=True)
         open(os.path.join(d, "Cargo.toml"), "w").write(open(manifest).read().replace('path = "/repo"', f'path = "{REPO}"'))
         import shutil
-        shutil.copy(os.path.join(VERIF, "replay", "src", "main.rs"), os.path.join(d, "src", "main.rs"))
+        for f in os.listdir(os.path.join(VERIF, "replay", "src")):
+            shutil.copy(os.path.join(VERIF, "replay", "src", f), os.path.join(d, "src", f))
         if os.path.exists(os.path.join(VERIF, "replay", "Cargo.lock")):
             shutil.copy(os.path.join(VERIF, "replay", "Cargo.lock"), os.path.join(d, "Cargo.lock"))
         manifest = os.path.join(d, "Cargo.toml")
@@ -462,6 +469,27 @@ def tree_changed_since_replay_build():
     return os.path.getmtime(os.path.join(REPO, "Cargo.toml")) > t
 
 
+# profile T (C18, C19): real-thread scenarios; `block` is a deterministic schedule, `stress` repeats a
+# barrier-released race (non-deterministic: only ever used to exhibit a run of a violation the verifier reported)
+THREAD_SCENARIOS = {"take_T": [("stress", "take1", 60000), ("stress", "take2", 60000)], "merge_T": [("stress", "merge2", 60000), ("stress", "merge3", 60000)],
+                    "combine2_T": [("block", "combine2", 1), ("stress", "combine2", 60000)], "combine3_T": [("block", "combine2", 1), ("stress", "combine2", 60000)]}
+
+
+def thread_search(template, pid, secs):
+    for (mode, sc, runs) in THREAD_SCENARIOS[template]:
+        try:
+            p = subprocess.run([REPLAY, "threads", mode, sc, str(runs)], capture_output=True, text=True, timeout=secs)
+            d = json.loads(p.stdout)
+        except Exception:
+            continue
+        if any(v["property"] == pid for v in d.get("violations", [])):
+            d["scenario"] = f"threads {mode} {sc}"
+            d["tape"] = []
+            d["replay_cmd"] = f"{REPLAY} threads {mode} {sc} {runs}" + ("" if mode == "block" else "   # a race: repeat until it shows")
+            return d
+    return None
+
+
 def replay_run(scenario, tape):
     p = sh([REPLAY, "run", scenario, json.dumps(tape)])
     try:
@@ -473,6 +501,8 @@ def replay_run(scenario, tape):
 def replay_search(template, pid, secs=90):
     if not build_replay():
         return None
+    if template in THREAD_SCENARIOS:
+        return thread_search(template, pid, secs)
     # histories of listed findings are not new violations
     excl = []
     for f in load_findings().get("findings", []):
@@ -523,14 +553,16 @@ def finding_matches(f, unit, e):
 
 
 def obligation_id(unit, e):
-    where = e.get("site") or "post"
+    where = e.get("site") or ("step" if (e.get("message") or "").startswith("precondition") else "post")
     return f"{unit['unit']}.{e.get('fn','?')}.{where}.{(e.get('clause') or 'untagged')[:60]}".replace(" ", "_").replace("/", "_")
 
 
 def check_property(pid, tier, res):
     t0 = time.time()
     findings = load_findings()
-    relevant = [u for u in res["units"] if u["status"] == "undecided" or pid in u.get("tags", []) or any(pid in e.get("properties", [e.get("property")]) for e in u["errors"]) or pid in ("C17", "C20")]
+    # a unit matters to a property when its template declares the property (//@properties) or one of its failed
+    # obligations is attributed to it; an undecided unit whose declaration is unknown matters to every property
+    relevant = [u for u in res["units"] if pid in u.get("tags", PROPS) or any(pid in e.get("properties", [e.get("property")]) for e in u["errors"])]
     if pid == "C20":
         relevant = [u for u in relevant if u["cfg"] == "on" or u["status"] == "undecided"]
     undecided = [u for u in relevant if u["status"] == "undecided"]
@@ -676,7 +708,7 @@ def main():
                 path = os.path.join(EVID, "replay", f"{a.property}-{t}.bounded-search.json")
                 json.dump({"property": a.property, "obligation": f"{t}: bounded tape search (verifier undecided: {[u.get('why','')[:300] for u in undecided if u['template']==t][0]})",
                            "level": "bounded exploration, not a proof", "failing_input": {"scenario": cex["scenario"], "tape": cex["tape"], "violations": cex["violations"], "history": cex["history"],
-                           "replay_cmd": f"{REPLAY} run {cex['scenario']} '{json.dumps(cex['tape'])}'"}}, open(path, "w"), indent=1)
+                           "replay_cmd": cex.get("replay_cmd") or f"{REPLAY} run {cex['scenario']} '{json.dumps(cex['tape'])}'"}}, open(path, "w"), indent=1)
                 print(f"VIOLATION property={a.property} replay={path}")
         sys.exit(1 if hit else 2)
     if not relevant:
@@ -730,7 +762,7 @@ def main():
                 other = sorted({(e.get("property"), e.get("clause")) for u in relevant if u["template"] == t for e in u["errors"] if e.get("kind") == "failed"})[:6]
                 json.dump({"property": a.property, "obligation": f"{t}: obligations failed under other tags {other}; this property's violation is shown by the replayed history",
                            "failing_input": {"scenario": cex["scenario"], "tape": cex["tape"], "violations": cex["violations"], "history": cex["history"],
-                                             "replay_cmd": f"{REPLAY} run {cex['scenario']} '{json.dumps(cex['tape'])}'"}}, open(path, "w"), indent=1)
+                                             "replay_cmd": cex.get("replay_cmd") or f"{REPLAY} run {cex['scenario']} '{json.dumps(cex['tape'])}'"}}, open(path, "w"), indent=1)
                 print(f"VIOLATION property={a.property} replay={path}")
                 sys.exit(1)
     if viol:
@@ -750,8 +782,8 @@ def main():
                        "clause": e.get("clause"), "clause_text": e.get("clause_text"), "statement": e.get("text"), "verifier_message": e.get("message"),
                        "verifier_output": e.get("rendered"),
                        "failing_input": ({"scenario": cex["scenario"], "tape": cex["tape"], "violations": cex["violations"], "history": cex["history"],
-                                          "replay_cmd": f"{REPLAY} run {cex['scenario']} '{json.dumps(cex['tape'])}'"} if cex else None),
-                       "note": ("failing history found by exhaustive tape search against the real crate and replayed there" if cex else
+                                          "replay_cmd": cex.get("replay_cmd") or f"{REPLAY} run {cex['scenario']} '{json.dumps(cex['tape'])}'"} if cex else None),
+                       "note": (("failing run found by a real-thread scenario against the real crate (`block` = deterministic schedule, `stress` = repeated race)" if cex["scenario"].startswith("threads ") else "failing history found by exhaustive tape search against the real crate and replayed there") if cex else
                                 "Verus gives no counterexample; the bounded tape search against the real crate found no failing history for this property")},
                       open(path, "w"), indent=1)
             print(f"VIOLATION property={a.property} replay={path}" + ("" if cex else " no-failing-input-found"))
